@@ -362,3 +362,86 @@ pub fn fixed_point_check(ctx: &mut Ctx, ty: Ty, b: &[u8], tagged: bool) -> bool 
         }
     }
 }
+
+
+// ---------------------------------------------------------------------------------------------
+// Birthday workload: very many pairwise distinct labels in one map.
+//
+// A duplicate-label detector that remembers anything shorter than the label itself (a 32-bit
+// fingerprint, a truncated integer, a length + checksum) will sooner or later report a duplicate
+// that is not there - or, when it overwrites on a match, lose an entry.  With 2^18 labels of one
+// shape a 32-bit key collides with probability > 0.999, a 36-bit key still with probability 0.4;
+// 64-bit keys are out of reach of any black-box workload (that limit is stated in DESIGN.md).
+
+use crate::model::MLabel;
+use crate::rng::Rng;
+
+/// kind 0: random 8-character texts; 1: random 64-bit integers (not 0..=7); 2: private-use integers
+/// (< -65536); 3: texts of 1-12 characters
+pub fn distinct_labels(r: &mut Rng, kind: u8, n: usize) -> Vec<MLabel> {
+    let mut seen = std::collections::HashSet::with_capacity(n * 2);
+    let mut out = Vec::with_capacity(n);
+    const AL: &[u8] = b"abcdefghijklmnopqrstuvwxyz0123456789-_.";
+    while out.len() < n {
+        let l = match kind {
+            0 | 3 => {
+                let len = if kind == 0 { 8 } else { 1 + r.below(12) };
+                MLabel::Text((0..len).map(|_| AL[r.below(AL.len())] as char).collect())
+            }
+            1 => {
+                let v = r.next() as i64;
+                if (0..=7).contains(&v) {
+                    continue;
+                }
+                MLabel::Int(v)
+            }
+            _ => MLabel::Int(-65537 - (r.next() >> 2) as i64),
+        };
+        if seen.insert(l.clone()) {
+            out.push(l);
+        }
+    }
+    out
+}
+
+pub const BIRTHDAY_N: usize = 1 << 18;
+
+/// One birthday case.  `which`: 0/1 header (text / integer labels), 2/3 key, 4/5 claims set (text /
+/// private-use labels), 6 COSE_Sign1 whose protected header is the big map, 7/8 header encoded from
+/// memory, 9/10 key encoded from memory.  Decode cases go through the accept-iff oracle (every entry
+/// must come back, in order); encode cases through the output oracle.  Returns the wire bytes of the
+/// decode cases (C07 runs its fixed-point oracle on them).
+pub fn birthday_case(ctx: &mut Ctx, which: u64) -> Option<(Ty, Vec<u8>)> {
+    use crate::model::{MClaims, MHeader, MKey, MSign1, MProt};
+    use crate::rcbor::{self, Item};
+    let kind: u8 = match which {
+        0 | 2 | 4 | 6 | 7 | 9 => 0,
+        5 => 2,
+        _ => 1,
+    };
+    let labels = distinct_labels(&mut ctx.rng, kind, BIRTHDAY_N);
+    let rest: Vec<(MLabel, Item)> = labels.into_iter().enumerate().map(|(i, l)| (l, Item::Int((i % 20) as i128))).collect();
+    ctx.count("birthday-cases");
+    ctx.add("birthday-labels", rest.len() as u64);
+    let v = match which {
+        0 | 1 | 7 | 8 => MVal::Header(MHeader { rest, ..Default::default() }),
+        2 | 3 | 9 | 10 => MVal::Key(MKey { kty: MLabel::Int(4), kid: vec![], alg: None, key_ops: vec![], base_iv: vec![], params: rest.into_iter().filter(|(l, _)| !matches!(l, MLabel::Int(i) if (0..=5).contains(i))).collect() }),
+        4 | 5 => MVal::Claims(MClaims { rest, ..Default::default() }),
+        _ => {
+            let h = MHeader { rest, ..Default::default() };
+            let bytes = rcbor::det(&model::enc_header(&h));
+            MVal::Sign1(MSign1 { prot: MProt { bytes: Some(bytes), header: h }, unprot: MHeader::default(), payload: Some(vec![1]), sig: vec![2] })
+        }
+    };
+    if which >= 7 {
+        if let Some(b) = encode_oracle(ctx, &v, "struct literal with 2^18 distinct extra labels") {
+            ctx.nontrivial_bytes(&b[..b.len().min(4096)]);
+        }
+        return None;
+    }
+    let ty = v.ty();
+    let bytes = rcbor::det(&model::encode(&v));
+    ctx.nontrivial_bytes(&bytes[..4096]);
+    decode_oracle(ctx, ty, &bytes, "2^18 distinct labels", true);
+    Some((ty, bytes))
+}
